@@ -262,7 +262,7 @@ def _flank_ok(parts: list, i: int) -> bool:
 
 def rule_templates(rep: Report) -> None:
 	from vlib.templates import TemplateModel
-	r = rep.rule('C08/template-name-substitution-anchored', 'a template that rewrites rendered code by replacing the text of a variable (replace filter / reg_replace) delimits the variable on both sides by non-identifier text or a word boundary; otherwise listed with a reason', floor=3)
+	r = rep.rule('C08/template-name-substitution-anchored', 'a template that rewrites rendered code by replacing the text of a variable or a constant word (replace filter / reg_replace) delimits it on both sides by non-identifier text, a word boundary or a line anchor; otherwise listed with a reason', floor=3)
 	tm = TemplateModel()
 	n = tm.nodes
 
@@ -299,7 +299,33 @@ def rule_templates(rep: Report) -> None:
 					merged.append((k_, v_))
 			vars_ = [(i, v_) for i, (k_, v_) in enumerate(merged) if k_ == 'var']
 			if not vars_:
-				continue  # constant text: not name-relative
+				# a constant WORD (keyword) removed / rewritten in rendered code: an identifier that merely ends (begins) with the same letters is
+				# rewritten too unless the open edge of the pattern is anchored (`^`, `\\b`) or is a non-identifier character
+				text = ''.join(v_ for _, v_ in merged)
+				if not any(ch.isalnum() or ch == '_' for ch in text):
+					continue  # punctuation only (';' -> ',', '.' -> '/'): cannot cut into an identifier
+				rep.consulted(tm.relpath(name))
+				sites += 1
+				key = f'{name}:{kind}({text!r})'
+				where = (tm.relpath(name), getattr(node, 'lineno', 1))
+				body = text
+				left_anchor = right_anchor = False
+				if kind == 'reg_replace':
+					for a_ in ('^', '\\b', '\\A'):
+						if body.startswith(a_):
+							left_anchor, body = True, body[len(a_):]
+					for a_ in ('$', '\\b', '\\Z'):
+						if body.endswith(a_):
+							right_anchor, body = True, body[:-len(a_)]
+				left_open = bool(body) and (body[0].isalnum() or body[0] == '_') and not left_anchor
+				right_open = bool(body) and (body[-1].isalnum() or body[-1] == '_') and not right_anchor
+				if not left_open and not right_open:
+					r.ok(key, where)
+				elif key in TEMPLATE_EXEMPT:
+					r.ok(key, where, message=f'exempt: {TEMPLATE_EXEMPT[key]}')
+				else:
+					r.violate(key, where, f'{kind}({text!r}, ...) rewrites rendered code wherever these letters occur: the {"left" if left_open else "right"} edge of the pattern is an identifier character with no anchor, so an identifier that merely {"ends" if left_open else "begins"} with them is cut (`n_return + 1` -> `n_+ 1`); renaming that variable changes the output beyond the renaming', text)
+				continue
 			rep.consulted(tm.relpath(name))
 			for i, v_ in vars_:
 				sites += 1
@@ -345,7 +371,13 @@ def rule_templates(rep: Report) -> None:
 			if isinstance(c_.node, n.Getattr) and c_.node.attr == 'any_args' and c_.args:
 				n_calls += 1
 				a = c_.args[0]
-				key = f'{name}:{tm._src(c_.node.node)}.any_args({tm._src(a)})'
+				# the finding is keyed by WHAT is searched (an element of which list), not by the spelling of the loop variable
+				what = tm._src(a)
+				if isinstance(a, n.Name):
+					for lp in tm.asts[name].find_all(n.For):
+						if any(isinstance(t, n.Name) and t.name == a.name for t in [lp.target] + list(lp.target.find_all(n.Name))):
+							what = f'each {tm._src(lp.iter)}'
+				key = f'{name}:any_args({what})'
 				where = (tm.relpath(name), getattr(c_, 'lineno', 1))
 				if isinstance(a, n.Const) or not is_substring:
 					rs.ok(key, where)
